@@ -125,9 +125,9 @@ fn module(shared: Arc<Shared>) -> RpcModule<Arc<Shared>> {
 }
 
 enum Conn {
-	HttpPartial(TcpStream, u8),
-	HttpParked(TcpStream),
-	Ws(TcpStream),
+	HttpPartial(Stream, u8),
+	HttpParked(Stream),
+	Ws(Stream),
 }
 
 fn find_head(buf: &[u8]) -> Option<u16> {
@@ -205,9 +205,37 @@ async fn poll_until(cond: impl Fn() -> bool, limit: Duration) -> bool {
 	}
 }
 
+/// Closing with SO_LINGER 0 sends RST and leaves no TIME_WAIT socket behind (tens of thousands of connections are
+/// made per run; FIN-first closes would eat the ephemeral port range).  Only the explicit FIN steps close gracefully.
 fn reset(s: TcpStream) {
 	let _ = s.set_zero_linger();
 	drop(s);
+}
+
+/// A stream that is reset when it goes out of scope.
+struct Stream(Option<TcpStream>);
+impl Stream {
+	fn fin(mut self) {
+		drop(self.0.take());
+	}
+}
+impl Drop for Stream {
+	fn drop(&mut self) {
+		if let Some(s) = self.0.take() {
+			reset(s);
+		}
+	}
+}
+impl std::ops::Deref for Stream {
+	type Target = TcpStream;
+	fn deref(&self) -> &TcpStream {
+		self.0.as_ref().expect("live stream")
+	}
+}
+impl std::ops::DerefMut for Stream {
+	fn deref_mut(&mut self) -> &mut TcpStream {
+		self.0.as_mut().expect("live stream")
+	}
 }
 
 fn post(method: &str, arg: u64) -> Vec<u8> {
@@ -252,11 +280,11 @@ struct Case {
 }
 
 impl Case {
-	async fn connect(&self) -> Option<TcpStream> {
+	async fn connect(&self) -> Option<Stream> {
 		match tokio::time::timeout(WAIT, TcpStream::connect(self.addr)).await {
 			Ok(Ok(s)) => {
 				let _ = s.set_nodelay(true);
-				Some(s)
+				Some(Stream(Some(s)))
 			}
 			_ => None,
 		}
@@ -343,7 +371,7 @@ impl Case {
 					if op == "hx" {
 						sh.open_gate(i);
 					}
-					if op == "hf" { drop(s) } else { reset(s) }
+					if op == "hf" { s.fin() } else { drop(s) }
 					none
 				}
 				Some(c) => {
@@ -400,9 +428,7 @@ impl Case {
 					tokio::time::sleep(Duration::from_millis(1)).await;
 				};
 				let refused = streams.iter().filter(|x| x.2 == Some(429)).count();
-				for (s, _, _) in streams {
-					reset(s);
-				}
+				drop(streams);
 				if done { format!("b{}", refused) } else { timeout }
 			}
 			"hg" => {
@@ -442,7 +468,7 @@ impl Case {
 				}
 				let sh2 = sh.clone();
 				let seen = poll_until(|| sh2.calls.load(SeqCst) > calls0, wait).await;
-				reset(s);
+				drop(s);
 				if seen { none } else { timeout }
 			}
 			"wc" => match self.conns.get_mut(&i) {
@@ -485,7 +511,7 @@ impl Case {
 					if op == "wx" {
 						let _ = s.write_all(&frame(0x88, &[0x03, 0xe8])).await;
 					}
-					if op == "wf" { drop(s) } else { reset(s) }
+					if op == "wf" { s.fin() } else { drop(s) }
 					none
 				}
 				Some(c) => {
@@ -548,15 +574,28 @@ async fn run_case(line: &str) -> String {
 		"ws" => cfg.ws_only(),
 		_ => cfg,
 	};
-	let server = match Server::builder()
-		.set_config(cfg.build())
-		.set_http_middleware(tower::ServiceBuilder::new().layer(TapLayer(shared.clone())))
-		.build("127.0.0.1:0")
-		.await
-	{
-		Ok(s) => s,
-		Err(e) => return format!("?bind {}", e),
-	};
+	// The listening port is picked below the ephemeral range (32768..): `bind(port 0)` needs a port with no socket at
+	// all on it, and client sockets in TIME_WAIT (ours or another engine's) can exhaust that range.
+	static NEXT: AtomicU64 = AtomicU64::new(0);
+	let mut server = None;
+	let mut last_err = String::new();
+	for _ in 0..400 {
+		let n = NEXT.fetch_add(1, SeqCst);
+		let port = 10000 + ((std::process::id() as u64 * 7919 + n * 13) % 22000) as u16;
+		match Server::builder()
+			.set_config(cfg.clone().build())
+			.set_http_middleware(tower::ServiceBuilder::new().layer(TapLayer(shared.clone())))
+			.build(("127.0.0.1", port))
+			.await
+		{
+			Ok(s) => {
+				server = Some(s);
+				break;
+			}
+			Err(e) => last_err = e.to_string(),
+		}
+	}
+	let Some(server) = server else { return format!("?bind {}", last_err) };
 	let addr = match server.local_addr() {
 		Ok(a) => a,
 		Err(e) => return format!("?addr {}", e),
